@@ -19,7 +19,7 @@ class History:
 
     def __init__(self, binary, names, tree, lock=None, structured=False, use_cache=None, base=0, maxid=None,
                  pad=0, crlf=False, unicode_prelude=False, bad=(), extra_files=None, tmp_on_other_fs=False,
-                 label=None, config_class="ok", structured_key="explicit", extensions=None, opaque=False, tmp_leftovers=False, pad_mode="spread"):
+                 label=None, config_class="ok", structured_key="explicit", extensions=None, opaque=False, tmp_leftovers=False, pad_mode="spread", tmp_missing=False):
         self.binary = binary
         self.names = list(names)
         self.structured = structured
@@ -47,6 +47,9 @@ class History:
             os.makedirs(os.path.dirname(p), exist_ok=True)
             with open(p, "wb") as fh:
                 fh.write(data if isinstance(data, bytes) else data.encode())
+        if tmp_missing:
+            # TMPDIR names a directory that does not exist (yet)
+            self.proj.tmp = os.path.join(self.proj.tmp, "not", "created")
         if tmp_leftovers:
             # what a killed earlier run leaves behind: old and fresh scratch files, and an unrelated file
             import time as _t
@@ -229,7 +232,7 @@ class History:
             if os.path.exists(pth):
                 with open(pth, "rb") as fh:
                     before[pth] = fh.read()
-        snap_dirs = [P.proj, P.tmp]
+        snap_dirs = [P.proj, os.path.join(P.root, "tmp")] + ([P.tmp] if not P.tmp.startswith(P.root) else [])
         snap0 = bl.snapshot(snap_dirs)
         exp_missing = self.expected_missing()
         readable = [n for n in self.names if self.present[n] and n not in self.bad]
@@ -237,7 +240,8 @@ class History:
         self.events.append({"ev": "start", "mode": mode, "cache": cache, "any_readable": bool(readable) and not self.opaque, "plan": plan,
                             "must_fail": self.config_class != "ok"})
         r = bl.run_breadlog(self.binary, self.config_arg, check=(mode == "check"), tmpdir=P.tmp,
-                            roots=(P.proj, P.tmp), plan=plan, timeout=timeout, cwd=cwd, logdir=P.tmp)
+                            roots=(P.proj, os.path.join(P.root, "tmp"), P.tmp), plan=plan, timeout=timeout, cwd=cwd,
+                            logdir=os.path.join(P.root, "tmp"))
         snap1 = bl.snapshot(snap_dirs)
         # ---- post-state
         after = {}
@@ -246,6 +250,7 @@ class History:
                 with open(pth, "rb") as fh:
                     after[pth] = fh.read()
         cls, pure = [], []
+        inserted_ids = []
         for n in self.names:
             pth = os.path.join(P.src, n)
             if pth not in before:
@@ -258,6 +263,8 @@ class History:
                 continue
             ok, toks = monitors.pure_insertion(before[pth], after[pth])
             pure.append(bool(ok))
+            if ok and n not in self.bad:
+                inserted_ids += [self.abs_id(ident) for (_ob, _oa, _tok, ident) in toks]
             if after[pth] == before[pth]:
                 cls.append("orig")
             elif ok and len(toks) == exp_missing.get(n, 0):
@@ -328,7 +335,8 @@ class History:
                             "cls": cls, "pure": pure, "tmpleft": max(0, len(P.tmp_entries()) - self.tmp_baseline), "snapeq": snapeq,
                             "others_same": others_same, "reported": sorted(reported), "total": total,
                             "count": cnt if cnt is not None else -1, "rc": r.rc if r.rc is not None else -1,
-                            "pos_match": pos_match, "present": self._present_list(), "bad": self._bad_list()})
+                            "pos_match": pos_match, "present": self._present_list(), "bad": self._bad_list(),
+                            "inserted_ids": [] if self.opaque else sorted(inserted_ids)})
         self.runs.append({"start": start_idx, "end": len(self.events) - 1, "run": r, "plan": plan, "mode": mode})
         return r
 
@@ -507,6 +515,6 @@ def runtrace(histories_events, max_files=5):
 def runtrace_eligible(evs):
     init = evs[0]
     return (init.get("ev") == "init" and init.get("base", 0) == 0 and not init.get("must_fail") and not init.get("opaque")
-            and 1 <= len(init.get("files", [])) <= 5
+            and 1 <= len(init.get("files", [])) <= 5 and sum(len(f) for f in init.get("files", [])) <= 60
             and "present" in init and any(len(f) for f in init["files"]) is not None
             and all(e.get("ev") != "start" or "order" in e for e in evs))
